@@ -113,6 +113,8 @@ func (r *Run) libCall(st *State, fr *Frame, name string, recv Val, args []Val, s
 	// ---------------------------------------------------------------- context
 	case "(context.Context).Err":
 		ctx := e.asTerm(recv, SAny)
+		// a method call on a nil interface value panics
+		e.safety(st, fr, in, "nilctx", Not(Eq(ctx, NilOf(SAny))), "ctx.Err() on a non-nil context at "+e.posOf(in))
 		r.ctxStep(st)
 		err := e.freshConst("ctxerr", SAny)
 		st.assume(Eq(Not(Eq(err, NilOf(SAny))), r.cancelled(st, ctx)))
@@ -121,6 +123,7 @@ func (r *Run) libCall(st *State, fr *Frame, name string, recv Val, args []Val, s
 		return ret(err)
 	case "(context.Context).Done":
 		ctx := e.asTerm(recv, SAny)
+		e.safety(st, fr, in, "nilctx", Not(Eq(ctx, NilOf(SAny))), "ctx.Done() on a non-nil context at "+e.posOf(in))
 		fn := e.namedFun("ctxdone", []Sort{SAny}, SChan)
 		ch := App(SChan, fn, ctx)
 		e.doneOf[ch.S] = ctx
